@@ -14,7 +14,7 @@ META = {
                  "observations that differ from TLC's prediction, a random sample of the others and seeded random larger "
                  "sets/streams are validated by TLC against the contract FilterSetTrace.tla",
     "design_ref": "DESIGN.md section 6, C12",
-    "level_text": "Exhaustive within bounds on the model: all multisets of <=3 (thorough: <=4 model-checked, <=5 replayed) "
+    "level_text": "Exhaustive within bounds on the model: all multisets of <=3 (thorough: <=4) "
                   "filters drawn from 8 base filters (matching everything, disabled, literal/negated/regex/type/payload "
                   "criteria with overlapping matches, disabled with criterion) x 4 kinds, 8 messages, 6 four-message streams "
                   "(incl. a repeated message); every such set executed on both real implementations and compared with TLC's "
